@@ -3,6 +3,10 @@ namespace MaddyVerif.Expect.FuncSkelC03
 
 /-- (declaration, fingerprint of its normalised text): comments, layout, local names and log/trace statements do not count -/
 def funcs : List (String × String) := [
+  ("internal/endpoint/smtp/session.go:Endpoint.wrapErr", "aca3119c6bbb506c"),
+  ("internal/endpoint/smtp/session.go:Session.Auth", "824172581d721d4f"),
+  ("internal/endpoint/smtp/session.go:Session.AuthMechanisms", "3b187f575c363366"),
+  ("internal/endpoint/smtp/session.go:Session.AuthPlain", "ee043220ec359376"),
   ("internal/endpoint/smtp/session.go:Session.Data", "bf48937093fb6d0f"),
   ("internal/endpoint/smtp/session.go:Session.LMTPData", "e6d831ed5c258d8a"),
   ("internal/endpoint/smtp/session.go:Session.Logout", "16adcf601f73c946"),
@@ -12,15 +16,26 @@ def funcs : List (String × String) := [
   ("internal/endpoint/smtp/session.go:Session.abort", "cc260d16299e7714"),
   ("internal/endpoint/smtp/session.go:Session.checkRoutingLoops", "98d6045aee136354"),
   ("internal/endpoint/smtp/session.go:Session.cleanSession", "8ef35cdf32e124da"),
+  ("internal/endpoint/smtp/session.go:Session.fetchRDNSName", "8411d4349e2123dc"),
   ("internal/endpoint/smtp/session.go:Session.prepareBody", "3697841cd32df567"),
   ("internal/endpoint/smtp/session.go:Session.rcpt", "3c31c357526cef02"),
   ("internal/endpoint/smtp/session.go:Session.releaseLimits", "a3cce0cdc2b1745a"),
   ("internal/endpoint/smtp/session.go:Session.startDelivery", "f3750d70475d3e64"),
+  ("internal/endpoint/smtp/session.go:limitReader", "9b1bffa15365ec5c"),
+  ("internal/endpoint/smtp/session.go:limitedReader.Read", "7ace14266e6bc4d1"),
+  ("internal/endpoint/smtp/session.go:statusWrapper.SetStatus", "8287477589940632"),
+  ("internal/endpoint/smtp/session.go:type Session", "e93ccca8d4bf063f"),
+  ("internal/endpoint/smtp/session.go:type limitedReader", "df2cdbda3935a056"),
+  ("internal/endpoint/smtp/session.go:type statusWrapper", "6040ee8ad2dd602d"),
   ("internal/endpoint/smtp/smtp.go:Endpoint.NewSession", "1b9d54da04f9a04e"),
+  ("internal/msgpipeline/msgpipeline.go:MsgPipeline.Start", "2567ac34fcd9d9e9"),
   ("internal/msgpipeline/msgpipeline.go:msgpipelineDelivery.Abort", "8d63ae83681b7520"),
+  ("internal/msgpipeline/msgpipeline.go:msgpipelineDelivery.AddRcpt", "4a921086f6367c2d"),
   ("internal/msgpipeline/msgpipeline.go:msgpipelineDelivery.Body", "7dc627c0fe03620b"),
   ("internal/msgpipeline/msgpipeline.go:msgpipelineDelivery.BodyNonAtomic", "9ef190be8c536e0f"),
-  ("internal/msgpipeline/msgpipeline.go:msgpipelineDelivery.Commit", "c3bd950ad436c4d4")
+  ("internal/msgpipeline/msgpipeline.go:msgpipelineDelivery.Commit", "c3bd950ad436c4d4"),
+  ("internal/msgpipeline/msgpipeline.go:msgpipelineDelivery.close", "11e4dc975ce697c4"),
+  ("internal/msgpipeline/msgpipeline.go:msgpipelineDelivery.getDelivery", "dc504feb895154cd")
 ]
 
 end MaddyVerif.Expect.FuncSkelC03
